@@ -8,6 +8,7 @@
 #include <booster/verif_trace.h>
 #include <booster/aio/io_service.h>
 #include <booster/aio/deadline_timer.h>
+#include <booster/aio/stream_socket.h>
 #include <booster/aio/reactor.h>
 #include <booster/aio/aio_category.h>
 #include <booster/aio/types.h>
@@ -297,6 +298,53 @@ static void closerace(int nops,unsigned seed,std::vector<aio::event_handler> &ke
 	}
 }
 
+// booster::aio::basic_io_device (stream_socket) closed / re-attached while a wait is pending: "closed first" must invoke the
+// handler exactly once with the cancellation code - for descriptors the device owns (assign) AND for descriptors it does
+// not own (attach, assign + release), on close() and when another descriptor is attached / assigned over it.
+static void devclose(int nops,unsigned seed,std::vector<aio::event_handler> &keep)
+{
+	vt::rng R(seed);
+	for(int n=0;n<nops;n++) {
+		int sp[2]; socketpair(AF_UNIX,SOCK_STREAM,0,sp);
+		int sq[2]; socketpair(AF_UNIX,SOCK_STREAM,0,sq);
+		bv::emit("\"e\":\"Fd\",\"fd\":%d,\"peer\":%d",sp[0],sp[1]);
+		aio::stream_socket dev(*srv);
+		unsigned own=R(3);    // 0: attach (not owned), 1: assign (owned), 2: assign + release() later
+		if(own==0) dev.attach(sp[0]); else dev.assign(sp[0]);
+		int hs[2]={-1,-1}; int cnt=0;
+		unsigned what=R(3);   // 0: readable, 1: writeable (fires at once), 2: both
+		for(int dir=0;dir<2;dir++) {
+			if(what!=2 && int(what)!=dir) continue;
+			int h=next_h++; ev_handler f={h}; aio::event_handler eh(f); keep.push_back(eh);
+			int ev = dir==0 ? (int)aio::io_events::in : (int)aio::io_events::out;
+			bv::emit("\"e\":\"Reg\",\"h\":%d,\"p\":%lu,\"kind\":\"io\",\"fd\":%d,\"ev\":%d",h,pid_of(eh.get_pointer().get()),sp[0],ev);
+			reg_count++;
+			if(dir==0) dev.on_readable(eh); else dev.on_writeable(eh);
+			hs[cnt++]=h;
+		}
+		if(R(4)==0) { char ch='x'; ssize_t w=write(sp[1],&ch,1); (void)w; }   // sometimes the event really happens first
+		if(R(2)) usleep(R(300));
+		unsigned how=R(3);    // 0: close(), 1: attach another descriptor over it, 2: assign another descriptor over it
+		bool owned_now = own==1;
+		if(own==2) dev.release();       // the device keeps the descriptor but no longer owns it
+		booster::system::error_code e;
+		if(how==0) dev.close(e);
+		else if(how==1) dev.attach(sq[0]);
+		else dev.assign(sq[0]);
+		bool ok=false;
+		for(int spin=0;spin<100000;spin++) {
+			ok=true; for(int i=0;i<cnt;i++) if(hstates[hs[i]].runs.load()==0) ok=false;
+			if(ok) break; usleep(100);
+		}
+		// tidy up whatever is still open (the device closed what it owned)
+		if(how==2) { dev.close(e); } else if(how==1) { dev.release(); close(sq[0]); } else close(sq[0]);
+		if(!owned_now) close(sp[0]);
+		close(sp[1]); close(sq[1]);
+		if(!ok) break;
+		progress++;
+	}
+}
+
 // booster::aio::deadline_timer used the way applications do: a periodic timer whose handler re-arms the same
 // timer object from inside itself, cancelled later.  Everything runs on the loop thread (posted functors).
 struct dt_ctx {
@@ -351,7 +399,7 @@ int main(int argc,char **argv)
 	unlink(out); bv::open(out);
 	base_ms=ptime::milliseconds(ptime::now());
 	long seed=vt::envl("VERIF_SEED",1);
-	hstates.resize((size_t)rounds*(producers+1)*nops*(mode=="cancelrace"?40:(mode=="closerace"?3:(mode=="restart"?2:(mode=="burst"?300:1))))+16);
+	hstates.resize((size_t)rounds*(producers+1)*nops*(mode=="cancelrace"?40:(mode=="closerace"||mode=="devclose"?3:(mode=="restart"?2:(mode=="burst"?300:1))))+16);
 	for(int r=0;r<rounds;r++) {
 		srv=new aio::io_service(reactor);
 		ran_count=0; reg_count=0;
@@ -465,6 +513,18 @@ int main(int argc,char **argv)
 			srv->stop();
 			loop.join();
 			for(int i=0;i<nt;i++) delete dts[i].t;
+			keep.clear(); keep2.clear();
+			delete srv; srv=0;
+			continue;
+		}
+		if(mode=="devclose") {
+			usleep(1000);
+			devclose(nops,seed*23+r*7+reactor,keep[0]);
+			for(int spin=0;spin<100000 && ran_count.load()<reg_count.load();spin++) usleep(100);
+			bv::emit("\"e\":\"Quiesce\",\"reg\":%ld,\"ran\":%ld",reg_count.load(),ran_count.load());
+			if(ran_count.load()<reg_count.load()) { bv::close(); _exit(0); }
+			srv->stop();
+			loop.join();
 			keep.clear(); keep2.clear();
 			delete srv; srv=0;
 			continue;
